@@ -625,6 +625,28 @@ def vacancy_cache_rules(ctx, prog):
                 truth = bool(g["allowed"]) and 0 not in g["allowed"]
                 if truth == (src["term"]["callee"].get("method") == "is_none") and g["allowed"]:
                     is_none = True
+            if src.get("kind") == "call" and src["term"]["callee"].get("method") == "is_none_or" and bool(g["allowed"]) and 0 not in g["allowed"] and \
+                    any(f.endswith("VacancyTracker::next_vacancy") for f in Slice(b).run(src["term"]["args"][0])["fields"]):
+                # `self.next_vacancy.is_none_or(|cached| slab_index < cached)`: both conditions in one library call
+                for ta in src["term"]["callee"].get("targs", []):
+                    for ck in ta.get("closures", []):
+                        cb = (prog.by_key.get(strip_generics(ck)) or [None])[0]
+                        if cb is None:
+                            continue
+                        for blk2 in cb.blocks:
+                            for st2 in blk2.stmts:
+                                if st2["k"] == "assign" and st2["rv"]["k"] == "binop" and st2["rv"]["op"] in ("Lt", "Gt", "Le", "Ge"):
+                                    sa2, sb2 = Slice(cb).run(st2["rv"]["a"]), Slice(cb).run(st2["rv"]["b"])
+                                    op2 = st2["rv"]["op"]
+                                    if sb2["upvars"] and 2 in sa2["args"]:
+                                        op2 = {"Lt": "Gt", "Gt": "Lt", "Le": "Ge", "Ge": "Le"}[op2]
+                                    elif not (sa2["upvars"] and 2 in sb2["args"]):
+                                        continue
+                                    if op2 in ("Lt", "Le"):
+                                        is_none = True
+                                        is_lt = True
+                                    else:
+                                        bad.append(f"cache overwritten when slab_index {op2} cached")
             dl = g.get("discr_local")
             d = b.unique_def(dl) if dl is not None else None
             if d and d[2] == "assign" and d[3]["rv"]["k"] == "binop" and d[3]["rv"]["op"] in ("Lt", "Gt", "Le", "Ge"):
